@@ -1,7 +1,7 @@
 (* Properties/C11.v -- Encoding is total and failures are classified correctly (the parts that are theorems). *)
 From Coq Require Import Arith NArith List Bool Lia.
 From DM Require Import Generated.Symbols Generated.ModeTables Model.Outcome Model.SymbolList Model.Planner Model.Enc
-  Model.RSEnc Model.Api Model.PlannerRun Proofs.RSEncLen Proofs.EncLocal Proofs.EncTop Proofs.EncAscii Proofs.PlanTotal Proofs.AsciiTotal Proofs.EncAB Proofs.EncABTotal Proofs.EncABXTotal.
+  Model.RSEnc Model.Api Model.PlannerRun Proofs.RSEncLen Proofs.EncLocal Proofs.EncTop Proofs.EncAscii Proofs.PlanTotal Proofs.AsciiTotal Proofs.EncAB Proofs.EncABTotal Proofs.EncABXTotal Proofs.EncABXETotal.
 Import ListNotations.
 Local Open Scope N_scope.
 
@@ -144,7 +144,21 @@ Theorem C11_abx_total : forall sorter data symbols eci modes use_macros fnc1,
 Proof. exact abx_total. Qed.
 Print Assumptions C11_abx_total.
 
-(* NOT a theorem for the mode sets that contain C40, Text or EDIFACT: that the main loop's assertions never fire, i.e. that the encoder reaches every switch
+(* (xi) and for every mode set within {ASCII, Base256, X12, EDIFACT} (sixteen of the 64 sets).  The EDIFACT encoder reads one
+   character at a time, so it needs nothing from the planner beyond the shape of the plan; its assertion about the free space
+   after the last group (space_left > 2) is guaranteed by its own end-of-data rule evaluated on the same symbol size, the
+   backup() of pending characters stays inside the message because the slice it re-reads is the message itself (an invariant
+   of all four encoders), and at most three consecutive iterations of the main loop write less than two codewords
+   (Proofs/EncABXETotal.v) *)
+Theorem C11_abxe_total : forall sorter data symbols eci modes use_macros fnc1,
+  (forall sl k l, exists l', sorter sl k l = Ok l' /\ incl l' l) ->
+  (forall m, enabled modes m = true -> m = Ascii \/ m = Base256 \/ m = X12 \/ m = Edifact) ->
+  match eci with Some c => c <= 999999 | None => True end ->
+  no_panic (encode_data_internal (optimize_fn sorter) data symbols eci modes use_macros fnc1).
+Proof. exact abx_total4. Qed.
+Print Assumptions C11_abxe_total.
+
+(* NOT a theorem for the mode sets that contain C40 or Text: that the main loop's assertions never fire, i.e. that the encoder reaches every switch
    position the planner chose (planner/encoder agreement).  It is decided per case by running model and
    implementation (debug and release) on the same inputs; the planner's own termination bound is C19, its totality (vi). *)
 Example C11_example : encode_data_internal (fun _ _ _ _ => Ok None) [65] [Square10] None 63 true false = Err TooMuchOrIllegalData.
